@@ -105,9 +105,11 @@ impl Base64Bytes {
         let mut data = vec![];
         let nada_encoded = nada::encode(bytes.clone());
         let mut zstd_compressed = vec![0; CALLDATA_LIMIT];
+        // An incompressible payload near the limit does not fit the buffer once zstd has added
+        // its frame and block headers; zstd is then simply not a candidate.
         let zstd_length =
             zstd_safe::compress(zstd_compressed.as_mut_slice(), bytes.iter().as_slice(), 22)
-                .map_err(|e| format!("Failed to compress with zstd: {}", e))?;
+                .unwrap_or(usize::MAX);
         // Pick compression method with the shortest length
         // 0x00 = uncompressed
         // 0x01 = nada
